@@ -513,6 +513,22 @@ pub const NAMES: &[&str] = &[
 pub const UIDS: &[u32] = &[0, 1, 2, 7, 65534];
 pub const GIDS: &[u32] = &[0, 1, 2, 7, 65534];
 
+pub const PREFIXY_NAMES: &[&str] = &[
+    "a", "ab", "a.b", "a b", "a-", "é", "éa", "é.d", "日", "日本", "aé", "a/", "😀", "😀a", "b",
+];
+
+pub fn name_strategy_for(cfg: TreeCfg) -> BoxedStrategy<String> {
+    if cfg.prefixy_names {
+        prop_oneof![
+            6 => prop::sample::select(PREFIXY_NAMES).prop_map(|s| s.trim_end_matches('/').to_string()),
+            2 => name_strategy(),
+        ]
+        .boxed()
+    } else {
+        name_strategy()
+    }
+}
+
 pub fn name_strategy() -> BoxedStrategy<String> {
     prop_oneof![
         6 => prop::sample::select(NAMES).prop_map(|s| s.to_string()),
@@ -533,6 +549,8 @@ pub struct TreeCfg {
     pub links: bool,
     pub owners: bool,
     pub plain_meta: bool,
+    /// Bias names to multi-byte characters and siblings that textually extend one another.
+    pub prefixy_names: bool,
 }
 
 impl TreeCfg {
@@ -546,6 +564,7 @@ impl TreeCfg {
             links: true,
             owners: true,
             plain_meta: false,
+            prefixy_names: false,
         }
     }
     /// Small trees with ordinary metadata, for checks where metadata is not the point.
@@ -559,6 +578,7 @@ impl TreeCfg {
             links: true,
             owners: false,
             plain_meta: true,
+            prefixy_names: false,
         }
     }
 }
@@ -719,7 +739,7 @@ pub struct GenTree {
 
 fn gen_children(cfg: TreeCfg, depth: u32) -> BoxedStrategy<Vec<GenNode>> {
     let file = (
-        name_strategy(),
+        name_strategy_for(cfg),
         (0u8..8, len_strategy()),
         meta_strategy(cfg, false),
     )
@@ -729,7 +749,7 @@ fn gen_children(cfg: TreeCfg, depth: u32) -> BoxedStrategy<Vec<GenNode>> {
             meta,
             children: vec![],
         });
-    let link = (name_strategy(), link_target_strategy(), meta_strategy(cfg, false)).prop_map(
+    let link = (name_strategy_for(cfg), link_target_strategy(), meta_strategy(cfg, false)).prop_map(
         |(name, target, meta)| GenNode {
             name,
             kind: GenKind::Link { target },
@@ -737,7 +757,7 @@ fn gen_children(cfg: TreeCfg, depth: u32) -> BoxedStrategy<Vec<GenNode>> {
             children: vec![],
         },
     );
-    let leaf_dir = (name_strategy(), meta_strategy(cfg, true)).prop_map(|(name, meta)| GenNode {
+    let leaf_dir = (name_strategy_for(cfg), meta_strategy(cfg, true)).prop_map(|(name, meta)| GenNode {
         name,
         kind: GenKind::Dir,
         meta,
@@ -749,7 +769,7 @@ fn gen_children(cfg: TreeCfg, depth: u32) -> BoxedStrategy<Vec<GenNode>> {
     }
     if depth + 1 < cfg.max_depth {
         let sub = (
-            name_strategy(),
+            name_strategy_for(cfg),
             meta_strategy(cfg, true),
             gen_children(cfg, depth + 1),
         )
